@@ -1,7 +1,9 @@
 (* C08 -- The generated Python state machine executes exactly the transition table. *)
 From Coq Require Import String List Bool Arith.
-From KV Require Import Lib.TableDef Model.TTable Model.PyShape Spec.TableInterp Gen.PyTmpl Model.PySM
-                       Proofs.PySMGen Proofs.PySMSem Model.PySyncIR Gen.PySync Model.PyTrigger Proofs.PyTriggerProofs.
+From KV Require Import Lib.Str Lib.TableDef Model.TTable Model.PyShape Spec.TableInterp Gen.PyTmpl Model.PySM
+                       Proofs.PySMGen Proofs.PySMSem Model.PySyncIR Gen.PySync Model.PyTrigger Proofs.PyTriggerProofs
+                       Model.Engine Model.EngineSM Model.EngineDomain Model.EngineDomain16 Spec.RefExpand16 Model.PyRender Proofs.PyBridge.
+Import KV.Model.PyShape KV.Model.PySM.
 Import ListNotations.
 Open Scope string_scope.
 
@@ -15,6 +17,65 @@ Theorem C08_sem : forall t, wf_table t = true -> forall evs gv,
   exists prog, parse_indent (gen_py t) = Some prog /\ run_py prog evs gv = Some (table_interp t evs gv).
 Proof. exact py_sem. Qed.
 Print Assumptions C08_sem.
+
+(* THE ENGINE'S OUTPUT.  gen_py is not a separately recognised shape any more: for EVERY well-formed table, the file that the
+   engine's pipeline (Model/EngineSM.v: all expander stages in source order, user tags, FOR, write) produces from the
+   "State Processing" region of the SHIPPED template (Model/PyRender.py_proc16: the lines of Gen/Templates.v from
+   def process(self, event) to the end of the file, first-filtered with the state machine name X, read into the template
+   syntax and checked to render back) is a sequence of lines L that read one by one as the process part of gen_py
+   (reads: a line is exactly  indentation ++ the Python statement of the abstract line ; blank / comment / print lines are
+   recognised); gen_py is the three constructor lines followed by that part; and that program parses and executes the
+   table.  The harness compares the real generated module's text from def process on with L on every case. *)
+Theorem C08_sem_engine : forall tt structs protos msgs m dict,
+  tt_model tt structs protos msgs = Some m -> dict_ok dict = true -> wf_table (table_of tt) = true -> forall evs gv,
+  exists L prog,
+    engine16 m dict py_proc16 = Some (concat_lines (map tab4 L))
+    /\ reads_all "X" L (gen_proc (table_of tt)) = true
+    /\ gen_py (table_of tt) = ([(4, ADef "__init__"); (8, AEntryStartup (getfirststate (table_of tt))); (8, ASetState (getfirststate (table_of tt)))]
+                               ++ gen_proc (table_of tt))%list
+    /\ parse_indent (gen_py (table_of tt)) = Some prog
+    /\ run_py prog evs gv = Some (table_interp (table_of tt) evs gv).
+Proof. exact py_sem_engine. Qed.
+Print Assumptions C08_sem_engine.
+
+(* ... and with the constructor: its behaviour-deciding lines (the def line and the two lines that mention <<<STATE_0>>>, selected from
+   the shipped file as translator/pytmpl.py selects them: Model/PyRender.py_init16) go through the engine's filterInitialState, which is
+   now part of the template grammar of C16 (InitLine).  Everything gen_py consists of is text the engine writes. *)
+Theorem C08_sem_engine_full : forall tt structs protos msgs m dict,
+  tt_model tt structs protos msgs = Some m -> dict_ok dict = true -> wf_table (table_of tt) = true -> forall evs gv,
+  exists L0 L prog,
+    engine16 m dict py_init16 = Some (concat_lines (map tab4 L0))
+    /\ engine16 m dict py_proc16 = Some (concat_lines (map tab4 L))
+    /\ reads_all "X" (L0 ++ L) (gen_py (table_of tt)) = true
+    /\ parse_indent (gen_py (table_of tt)) = Some prog
+    /\ run_py prog evs gv = Some (table_interp (table_of tt) evs gv).
+Proof. exact py_sem_engine_full. Qed.
+Print Assumptions C08_sem_engine_full.
+
+Theorem C08_init_reads : forall (t : table) structs protos msgs,
+  reads_all "X" (flat_map (ref_item16 (elements_of t structs protos msgs)) py_init16) (gen_init t) = true.
+Proof. exact py_init_reads. Qed.
+Print Assumptions C08_init_reads.
+
+Example C08_init_is_shipped : py_init16_opt = Some py_init16 /\ List.length py_init16 = 3.
+Proof. split; vm_compute; reflexivity. Qed.
+Print Assumptions C08_init_is_shipped.
+
+(* the reading alone, at the level of the reference expansion: every table (well-formed or not), every interface *)
+Theorem C08_ref_reads : forall (t : table) structs protos msgs,
+  reads_all "X" (flat_map (ref_item16 (elements_of t structs protos msgs)) py_proc16) (gen_proc t) = true.
+Proof. exact py_ref_reads_b. Qed.
+Print Assumptions C08_ref_reads.
+
+(* the region is the shipped text: it parses into the syntax, renders back to the shipped lines, lies in the grammar *)
+Example C08_region_is_shipped : py_proc16_opt = Some py_proc16 /\ Nat.ltb 20 (List.length py_proc_lines) = true.
+Proof. split; vm_compute; reflexivity. Qed.
+Print Assumptions C08_region_is_shipped.
+
+(* well-formed tables need no side condition: their names are admitted by the engine theorem *)
+Theorem C08_wf_table_admitted : forall (t : table), forallb row_ok t = true -> tps_wf (tps_of t) = true.
+Proof. exact tps_wf_table. Qed.
+Print Assumptions C08_wf_table_admitted.
 
 (* "For each triggered event": the same, with the machine driven through Trigger<Event> in non-threaded mode
    (StateMachineThread = 0).  What Trigger does is read from the synchronisation IR that translator/pysync.py extracts
@@ -41,6 +102,13 @@ Print Assumptions C08_init.
 Theorem C08_block_structure : forall t, parse_indent (gen_py t) = Some (prog_of t).
 Proof. exact parse_gen_py. Qed.
 Print Assumptions C08_block_structure.
+
+(* ... so the block structure of what the engine writes is valid Python: its lines read as a program that parses *)
+Theorem C08_block_structure_engine : forall tt structs protos msgs m dict,
+  tt_model tt structs protos msgs = Some m -> dict_ok dict = true -> wf_table (table_of tt) = true ->
+  exists L, engine16 m dict py_proc16 = Some (concat_lines (map tab4 L)) /\ reads_all "X" L (gen_proc (table_of tt)) = true.
+Proof. exact py_engine_reads. Qed.
+Print Assumptions C08_block_structure_engine.
 
 (* guarded row + unguarded fallback, unguarded row followed by a guarded one, a target-only state (SC),
    a row without target, all spellings of "absent", a repeated row, a self loop *)
